@@ -407,6 +407,25 @@ pub fn gen_limits(seed: u64, tier: &str) -> Vec<Value> {
                 }
             }
         }
+        // limits x compression: the limit is about the on-the-wire (compressed) payload length; wire lengths n-1, n, n+1
+        // around each limit, and highly compressible messages whose decompressed size is far above a limit their wire form meets
+        for enc in ["gzip", "deflate", "zstd"] {
+            for (pi, plain) in [vec![], rand_bytes(&mut rng, 10, false), vec![b'a'; 300], rand_bytes(&mut rng, 300, false), vec![b'z'; 5000]].iter().enumerate() {
+                let comp = compress_with(enc, plain);
+                let n = comp.len() as i64;
+                let lims: Vec<i64> = if pi == 4 { vec![100, n, n - 1] } else { vec![n - 1, n, n + 1] };
+                for l in lims { if l < 0 { continue; }
+                    for role in ["server", "client"] {
+                        let mut wire = frame(0, &[7, 7]);
+                        wire.extend(frame(1, &comp));
+                        wire.extend(frame(0, &[]));
+                        out.push(json!({"kind":"dec","class":"dec_limit_compressed","role":role,"dec_enc":enc,"enc":"identity","override":false,"codec":"raw",
+                            "bufsz":64,"yield":32768,"limit_enc":-1,"limit_dec":l,"items":[],"wire":bytes_json(&wire),"cuts":rand_cuts(&mut rng),
+                            "body_pend":[],"tail": if role=="server" {"trailers_ok"} else {"none"},"tail_at":0,"extra_polls":3}));
+                    }
+                }
+            }
+        }
         // declared length only (5 bytes on the wire, nothing follows), default and explicit limits
         for decl in [[0u8, 0x40, 0, 1], [0x01, 0, 0, 0], [0x7f, 0xff, 0xff, 0xff], [0x80, 0, 0, 0], [0xff, 0xff, 0xff, 0xff]] {
             for &l in &[-1i64, 7, 4194304] {
